@@ -26,7 +26,7 @@ type RawClient struct {
 func (c *RawClient) Send(msgType uint8, body []byte) (respType int, resp []byte, err error) {
 	c.Sent++
 	ev := &NetEvent{From: c.From, To: c.To, Phase: "req", MsgType: msgType, Token: c.Token, Body: body, OrigBody: body,
-		ContentType: "application/cbor", Session: "adversary"}
+		ContentType: "application/cbor", Session: "adversary", Adversary: true}
 	ev.Fault("inject")
 	r, err := c.Net.Deliver(ev)
 	if err != nil {
